@@ -19,6 +19,13 @@ spread: 1e8 + {0,1,3}, 1.7e9 + {0.1,2.7,5.3}, 2-D mixing large-offset, small,
 negative-offset and NaN columns), where algebraically equivalent formulas are
 no longer numerically equivalent; tolerances there are per component and
 measured (see accumulators.TOL_*).
+Non-canonical list-valued configurations (accumulators.py, _build_noncanon):
+every accumulator with a list- or mapping-valued configuration is enumerated
+again with that configuration not in canonical form - k_list (2,1,3), (2,2,1),
+(3,1), (2,1,5) / (2,1) / (3,1,2,1), thresholds (0.5,0) and (0.65,0.25,0,0.25),
+vocabulary {'c':0,'a':2,'b':1}, metric-name lists reordered, patterns
+('b','ab') - over the ragged alphabets, so that the longest
+prediction differs between the batches and shards of a history.
 Order-carrying accumulators: equality with the concatenation in shard order.
 Reservoir sampler: size, membership (multiset inclusion), reviewed-count.
 
@@ -296,7 +303,20 @@ def run(ctx):
       'SymmetricPredictionDifference/RRegression(center=False)/MeanState/'
       'TupleMeanState, large-offset alphabets 1e8+{0,1,3}, 1.7e9+{0.1,2.7,5.3}'
       ', 2-D rows mixing a 1e8-offset column, a small column with NaN and a '
-      '-3e8-offset column with NaN, as separate catalogue entries) (N=3 quick; thorough 4, and 5 for '
+      '-3e8-offset column with NaN, as separate catalogue entries; plus, for '
+      'every accumulator with a list- or mapping-valued configuration, that '
+      'configuration in non-canonical form as separate catalogue entries: '
+      f'TopKRetrieval k_list in {acc.NONCANON_K_LISTS} (unsorted, inversion '
+      'below the maximum, duplicates, k beyond the longest prediction) over '
+      'the ragged alphabet (predictions of length 1..3: the longest row '
+      'differs between batches and shards) and (2,1,3) over the equal-length '
+      'alphabet (all 17 metrics for (2,1,3) x ragged, otherwise 6 metrics - '
+      'one per formula family - named in non-default order); ThresholdedRetrieval thresholds (0.5,0), (0.65,0.25,0,0.25); '
+      'ConfusionMatrixAggFn / TopKConfusionMatrixAggFn / '
+      'SamplewiseClassification / ClassificationAggFn with vocabulary '
+      "{'c':0,'a':2,'b':1} (insertion order != index order != alphabetical), "
+      'top-k k_list (2,1), (3,1,2,1), metric lists reordered; '
+      'PatternFrequency patterns (b,ab)) (N=3 quick; thorough 4, and 5 for '
       'the cheap scalar families through the metric API) x every two-level composition into <= '
       f'{MAX_SHARDS} contiguous shards (empty shards allowed) and >= 1 non-empty '
       'batches per shard (+ one empty batch before/after a shard where accepted) '
@@ -321,6 +341,10 @@ def run(ctx):
       'by construction)',
       'ValueAccumulator without concat_fn stores one value per add(): rows are '
       'fed one per call, only the sharding varies',
+      'non-canonical configurations inside the constructors\' domain only: '
+      'Histogram edges must increase (numpy raises), PatternFrequency patterns '
+      'must be unique (constructor raises), vocabularies are bijections onto '
+      '0..n-1, metric names are not repeated',
   ]
   ctx.pmap(_unit, ctx.shuffled(units))
   pe = [k for k, e in cat.items() if e.per_example is not None
@@ -328,6 +352,8 @@ def run(ctx):
   ctx.pmap(_per_example_unit, ctx.shuffled(pe))
   ctx.notes['catalogue_entries'] = len(cat)
   ctx.notes['large_offset_entries'] = sum(e.offset for e in cat.values())
+  ctx.notes['noncanonical_config_entries'] = sum(
+      e.noncanon for e in cat.values())
   ctx.notes['accumulator_classes'] = len({e.name for e in cat.values()})
   ctx.notes['datasets'] = n_datasets
   ctx.notes['per_example_entries'] = len(pe)
